@@ -161,7 +161,7 @@ def field_specs(x):
         nm = f.get("name") or ""
         mask = f.get("mask")
         acc = (mask is not None and mask.get("kind") != "num") or f.get("tl2bit") is not None
-        k = "n" if not acc else ("b" if f.get("isBit") else "f")
+        k = ("N" if f.get("isBit") else "n") if not acc else ("b" if f.get("isBit") else "f")
         toks.append(f"{nm or '-'}:{k}")
         if nm:
             meta.append((nm, bool(f.get("isBit")), nm.startswith("_")))
@@ -352,13 +352,20 @@ def run(ctx):
                 if x.get("natParams"):
                     has_nat.add((id(r), t))
             recs.append((r, label, rec, cands))
+        heads = sorted({x["tlName"] for x in (r.ins or []) if x["kind"] in ("struct", "union") and x.get("tlName") and x.get("topLevel")})
         if file_names and not split:
             mlines.append("oblig_files " + " ".join(sorted(set(file_names))))
             mexpect.append(("oblig", label, ("a", p)))
-        heads = sorted({x["tlName"] for x in (r.ins or []) if x["kind"] in ("struct", "union") and x.get("tlName") and x.get("topLevel")})
+        if heads and split:
+            mlines.append("oblig_dirs " + " ".join(heads))
+            mexpect.append(("oblig", label, ("a", p)))
         if heads and not split:
             mlines.append("oblig_globals " + " ".join(heads))
             mexpect.append(("oblig", label, ("d", p)))
+        p["heads"] = set()
+        for h in heads:
+            mlines.append(f"global {h}")
+            mexpect.append(("global", label, p))
     mo = model_run(mlines)
     blines, bexpect = [], []
     if mo:
@@ -367,6 +374,8 @@ def run(ctx):
             if kind in ("const", "file"):
                 if m != exp:
                     mism.append(("corr:C14:names", f"{label}: {l}", m, exp))
+            elif kind == "global":
+                exp["heads"].add(m[3:])
             elif kind == "oblig":
                 cls, p = exp
                 if m == "ok false":
@@ -380,10 +389,9 @@ def run(ctx):
             first = None
             for line, toks, meta, x in cands:
                 m = mo[struct_ix[line]]
-                body = m[3:].split(" | ") if m.startswith("ok ") and " | " in m else ["-", "-"]
-                gos = [] if body[0] == "-" else body[0].split(",")
+                body = m[3:].split(" | ") if m.startswith("ok ") and m.count(" | ") == 2 else ["-", "-", "-"]
                 accs = [] if body[1] == "-" else body[1].split(",")
-                mf = [g for g, (nm, bit, om) in zip(gos, meta) if not bit and not om]
+                mf = [] if body[2] == "-" else body[2].split(",")
                 real_acc = [mm for mm in rec["methods"] if mm not in m_upper and mm in set(accs)] + \
                            [mm for mm in rec["methods"] if mm not in m_upper and mm not in set(accs)]
                 goside = f"ok {','.join(real_fields) or '-'} | {','.join(real_acc) or '-'}"
@@ -432,11 +440,25 @@ def run(ctx):
                   "options": r.options, "tl2gen": trunc(B._strip_ansi(r.gen_log), 1500)}
         for sig, what in r.problems:
             problems.append((sig, f"{label}: {what}", replay))
+        p = pred.get(id(r))
+        split = "--split-internal" in r.options
         if r.outcome == "nobuild":
-            classes = r.classes
             replay["go_build"] = trunc(r.build_log, 2000)
-            if classes:
-                for k, sig in classes:
+            # a known class is accepted only where the model's obligation predicts it for this very schema
+            accepted = []
+            for k, sig in r.classes:
+                if p is None:
+                    continue
+                if k == "d":
+                    xs = re.findall(r"gen/internal/[^\s:]+\.go:\d+:\d+: (\w+) redeclared in this block", r.build_log)
+                    helpers = lists_out[2] if lists_out else set()
+                    ok = bool(xs) and not split and all(x in helpers or (x in p.get("heads", ()) and (x.endswith("Bytes") or x.startswith("Builtin"))) for x in xs)
+                else:
+                    ok = bool(p.get(k))
+                if ok:
+                    accepted.append((k, sig))
+            if accepted and len(accepted) == len(r.classes):
+                for k, sig in accepted:
                     kf_hits[sig] = kf_hits.get(sig, 0) + 1
                     ctx.violation(sig, f"{label}: tl2gen exit 0 but go build fails: {trunc(B.first_error_line(r.build_log), 200)}", replay)
             else:
@@ -448,8 +470,7 @@ def run(ctx):
                 mism.append(("corr:C14:names", f"witness of the refuted obligation ({want}) on the real generator", f"go build fails with class {want}",
                              f"{r.outcome} classes={got}"))
         # model obligations vs observed class (non-split units that were scanned)
-        p = pred.get(id(r))
-        if p is not None and r.rc == 0 and "--split-internal" not in r.options:
+        if p is not None and r.rc == 0:
             got = {k for k, _ in r.classes}
             pa, pb, pc, pd = (bool(p.get(k)) for k in "abcd")
             why = None
